@@ -56,9 +56,9 @@ var rewrites = map[string]map[string]string{
 		"Rename": "Rename", "Remove": "Remove", "RemoveAll": "RemoveAll", "Mkdir": "Mkdir",
 		"MkdirAll": "MkdirAll", "ReadDir": "ReadDir", "Chmod": "Chmod", "Truncate": "Truncate",
 		"Open": "Open", "Create": "Create", "OpenFile": "OpenFile", "CreateTemp": "CreateTemp",
-		"MkdirTemp": "MkdirTemp", "Args": "Args()", "File": "File",
+		"MkdirTemp": "MkdirTemp", "Args": "Args()", "File": "File", "Symlink": "Symlink", "Readlink": "Readlink",
 	},
-	"path/filepath": {"Abs": "Abs"},
+	"path/filepath": {"Abs": "Abs", "EvalSymlinks": "EvalSymlinks"},
 	"io/ioutil":     {"ReadFile": "ReadFile", "WriteFile": "WriteFile", "TempFile": "CreateTemp", "TempDir": "MkdirTemp"},
 	"time":          {"Now": "Now", "Since": "Since"},
 	"math/rand": {"Int": "RandInt", "Intn": "RandIntn", "Int63": "RandInt63", "Int31": "RandInt31",
@@ -77,8 +77,8 @@ var keepalive = map[string]string{
 
 // selectors that touch the environment but have no seam: reported.
 var unsim = map[string][]string{
-	"os":            {"Link", "Symlink", "Readlink", "Chown", "Lchown", "Chtimes", "DirFS", "CopyFS", "StartProcess", "Pipe", "NewFile", "SameFile", "FindProcess", "Getppid", "Getuid", "Setenv", "Unsetenv", "Clearenv", "UserCacheDir", "UserConfigDir", "ReadLink"},
-	"path/filepath": {"Walk", "WalkDir", "Glob", "EvalSymlinks"},
+	"os":            {"Link", "Chown", "Lchown", "Chtimes", "DirFS", "CopyFS", "StartProcess", "Pipe", "NewFile", "SameFile", "FindProcess", "Getppid", "Getuid", "Setenv", "Unsetenv", "Clearenv", "UserCacheDir", "UserConfigDir", "ReadLink"},
+	"path/filepath": {"Walk", "WalkDir", "Glob"},
 	"time":          {"Sleep", "After", "Tick", "NewTimer", "NewTicker", "AfterFunc", "Until"},
 	"reflect":       {"MapRange", "MapKeys"},
 	"io/ioutil":     {"ReadDir", "ReadAll"},
